@@ -85,11 +85,21 @@ class MultiHeadAttention(pattern.RewriteRuleClassBase):
 
         if self._is_rotary:
             query_BHSDh_emb = op.RotaryEmbedding(
-                query_BHSDh, position_ids, cos, sin, _domain="com.microsoft"
+                query_BHSDh,
+                position_ids,
+                cos,
+                sin,
+                _domain="com.microsoft",
+                _outputs=["query_rope"],
             )
             if not self._is_cross_attention:
                 key_BHSDh_emb = op.RotaryEmbedding(
-                    key, position_ids, cos, sin, _domain="com.microsoft"
+                    key,
+                    position_ids,
+                    cos,
+                    sin,
+                    _domain="com.microsoft",
+                    _outputs=["key_rope"],
                 )
             else:
                 key_BHSDh_emb = key
@@ -148,9 +158,23 @@ class MultiHeadAttention(pattern.RewriteRuleClassBase):
         key_transposed=None,
         key_BSHDh=None,
         value_BSHDh=None,
+        query_rope=None,
+        key_rope=None,
         **_,
     ) -> pattern.MatchResult:  # type: ignore[name-defined]
         check_result = pattern.MatchResult()
+
+        # The rewrite re-creates the rotary embeddings on the 3D inputs: keep their `interleaved`.
+        self._interleaved = 0
+        if query_rope is not None:
+            self._interleaved = query_rope.producer().attributes.get_int("interleaved", 0)
+            if key_rope is not None:
+                key_interleaved = key_rope.producer().attributes.get_int("interleaved", 0)
+                if key_interleaved != self._interleaved:
+                    return check_result.fail(
+                        "Rotary embedding interleaved attribute mismatch",
+                        [query_rope.producer(), key_rope.producer()],
+                    )
 
         sdpa_node = sdpa_output.producer()
 
@@ -297,11 +321,21 @@ class MultiHeadAttention(pattern.RewriteRuleClassBase):
 
         if self._is_rotary:
             query_BSD_emb = op.RotaryEmbedding(
-                query_BSD, position_ids, cos, sin, _domain="com.microsoft"
+                query_BSD,
+                position_ids,
+                cos,
+                sin,
+                interleaved=self._interleaved,
+                _domain="com.microsoft",
             )
             if not self._is_cross_attention:
                 key_BSD_emb = op.RotaryEmbedding(
-                    key, position_ids, cos, sin, _domain="com.microsoft"
+                    key,
+                    position_ids,
+                    cos,
+                    sin,
+                    interleaved=self._interleaved,
+                    _domain="com.microsoft",
                 )
             else:
                 key_BSD_emb = key
